@@ -36,6 +36,14 @@ def run(ctx):
                 for i, l in enumerate(fh):
                     if i in (10, 300):
                         ctx.sample(json.loads(l))
+    # R->V: seeded random block trees / delivery orders with the index on (and rebuilt now and then)
+    ctx.seed += 900
+    hist, events, st2 = L.record_validate(ctx, binp, 6 if quick else 60, 14 if quick else 18, 4 if quick else 8, tag="rvbal", bal=True)
+    ctx.seed -= 900
+    ctx.log("R->V with balance index: %d random histories (%d events)" % (hist, events))
+    replayed += hist
+    states += st2
+    ctx.cov["recorded_random_histories"] = hist
     ctx.level = "model_checking"
     ctx.cov.update({"states": states, "transitions": transitions, "traces_validated_against_impl": replayed,
                     "exhaustive": True, "families": [f for f, _ in fams],
